@@ -22,7 +22,7 @@ Lemma depth_save_sl : forall v f s, depth (save_sl v f s) = depth s.
 Proof.
   intros; unfold save_sl. destruct (sl_res s), (fix_mean v); cbn; rewrite depth_write_samples; reflexivity.
 Qed.
-Lemma depth_push : forall i s, depth (push i s) = S (depth s). Proof. reflexivity. Qed.
+Lemma depth_push : forall i j s, depth (push i j s) = S (depth s). Proof. reflexivity. Qed.
 Lemma depth_pop : forall s, depth (pop s) = pred (depth s). Proof. reflexivity. Qed.
 
 Lemma foreign_write_samples : forall f n s, foreign (write_samples f n s) = foreign s.
@@ -66,7 +66,7 @@ Lemma depth_report_block : forall v o e i s s1, report_block v o e i s = Ok s1 -
 Proof.
   intros v o e i s s1. unfold report_block.
   destruct (glob_set v o e); [|intros H; injection H as <-; reflexivity].
-  destruct (negb (i =? 0) && negb _); [discriminate|].
+  destruct (negb (i =? 0) && negb _ && negb _); [discriminate|].
   intros H; injection H as <-.
   rewrite depth_gwrite. destruct (outdir o); cbn [depth write];
     rewrite ?(if_app _ _ depth), ?depth_gwrite, ?if_same, ?depth_gwrite; reflexivity.
@@ -189,7 +189,7 @@ Lemma report_block_fixed : forall o e i s s1,
 Proof.
   intros o e i s s1. unfold report_block, glob_set. cbn [fix_global fixed].
   destruct (outdir o) eqn:Ho.
-  - destruct (negb (i =? 0) && negb _); [discriminate|].
+  - destruct (negb (i =? 0) && negb _ && negb _); [discriminate|].
     intros H; injection H as <-. split; [|discriminate].
     rewrite foreign_gwrite_out by assumption.
     destruct (plot_m o); cbn [foreign write]; rewrite ?foreign_gwrite_out by assumption; reflexivity.
@@ -284,7 +284,7 @@ Lemma sl_report_block : forall v o e i s s1,
 Proof.
   intros v o e i s s1. unfold report_block.
   destruct (glob_set v o e); [|intros H; injection H as <-; auto].
-  destruct (negb (i =? 0) && negb _); [discriminate|].
+  destruct (negb (i =? 0) && negb _ && negb _); [discriminate|].
   intros H; injection H as <-.
   destruct (plot_m o); unfold gwrite; destruct (outdir o); cbn; auto.
 Qed.
@@ -447,87 +447,50 @@ Proof. intros o f s g Ho. unfold gwrite. rewrite Ho. cbn. apply has_add. Qed.
 Lemma exists_lt_false : forall f n, (forall i, f i = false) -> exists_lt f n = false.
 Proof. induction n; intros H; cbn; [reflexivity|]. rewrite H, IHn; auto. Qed.
 
-Definition mh_inv (o : opts) (i : nat) (s : lstate) : Prop :=
-  outdir o = true -> i <> 0 -> has (files s) (FMinisanityHist (fn o (pred i))) = true.
-
-Lemma report_block_ok : forall o e i s,
-  mh_inv o i s ->
-  exists s1, report_block fixed o e i s = Ok s1 /\
-             (outdir o = true -> has (files s1) (FMinisanityHist (fn o i)) = true).
+Lemma report_block_ok : forall o e i s, exists s1, report_block fixed o e i s = Ok s1.
 Proof.
-  intros o e i s Hinv. unfold report_block, glob_set. cbn [fix_global fixed].
-  destruct (outdir o) eqn:Ho.
-  - assert (Hp : negb (i =? 0) && negb (has (files (gwrite o FMinisanityTxt s)) (FMinisanityHist (fn o (pred i)))) = false).
-    { destruct (i =? 0) eqn:Ei; [reflexivity|]. apply Nat.eqb_neq in Ei. cbn.
-      apply negb_false_iff. apply has_gwrite_out; auto. }
-    rewrite Hp. eexists. split; [reflexivity|]. intros _.
-    apply has_gwrite_out; [assumption|]. right. apply has_write. right.
-    assert (Hg : gfn o e i = fn o i) by (unfold gfn; rewrite Ho; reflexivity). rewrite Hg.
-    destruct (plot_m o); repeat (apply has_gwrite_out; [assumption|]); auto.
-    right. apply has_gwrite_out; auto.
-  - exists s. split; [reflexivity|discriminate].
+  intros o e i s. unfold report_block. cbn [fix_mh fixed negb]. rewrite andb_false_r.
+  destruct (glob_set fixed o e); eauto.
 Qed.
 
 Lemma iteration_ok : forall o e i s,
-  (sic o = false -> forall j, nsamp o j = 0) -> dry o = false -> mh_inv o i s ->
-  exists s' b, iteration fixed o e i s = Ok (s', b) /\ mh_inv o (S i) s'.
+  (sic o = false -> forall j, nsamp o j = 0) ->
+  exists s' b, iteration fixed o e i s = Ok (s', b).
 Proof.
-  intros o e i s Hsic Hd Hinv. rewrite iteration_eq, Hd.
+  intros o e i s Hsic. rewrite iteration_eq. destruct (dry o); [eauto|].
   assert (Hc : negb (sic o) && negb (nsamp o i =? 0) = false).
   { destruct (sic o) eqn:E; [reflexivity|]. rewrite (Hsic eq_refl i). reflexivity. }
   rewrite Hc.
-  destruct (report_block_ok o e i (save_block fixed o i (minimise o i (enter o i s)))) as (s1 & Hr & Hh).
-  { intros Ho Hi. apply save_block_keeps; [|intros; discriminate|intros; discriminate|discriminate].
-    destruct (files_minimise o i (enter o i s)) as [M1 _]. destruct (files_enter o i s) as [E1 _].
-    rewrite M1, E1. apply Hinv; assumption. }
-  rewrite Hr. rewrite (surjective_pairing (callbacks fixed o i s1)).
-  eexists _, _. split; [reflexivity|].
-  intros Ho _. cbn [pred]. destruct (files_callbacks fixed o i s1) as [C1 _]. rewrite C1. auto.
+  destruct (report_block_ok o e i (save_block fixed o i (minimise o i (enter o i s)))) as (s1 & Hr).
+  rewrite Hr. rewrite (surjective_pairing (callbacks fixed o i s1)). eauto.
 Qed.
 
-Lemma loop_ok : forall o e n i s,
-  (sic o = false -> forall j, nsamp o j = 0) -> dry o = false -> mh_inv o i s ->
-  exists s', loop fixed o e (seq i n) s = Ok s'.
+Lemma loop_ok : forall o e is s,
+  (sic o = false -> forall j, nsamp o j = 0) -> exists s', loop fixed o e is s = Ok s'.
 Proof.
-  intros o e n. induction n; intros i s Hsic Hd Hinv; cbn [seq loop].
-  - eauto.
-  - destruct (iteration_ok o e i s Hsic Hd Hinv) as (s' & b & Hi & Hinv').
-    rewrite Hi. destruct b; [eauto|]. apply IHn; assumption.
-Qed.
-
-Lemma loop_dry_ok : forall o e is s, dry o = true -> exists s', loop fixed o e is s = Ok s'.
-Proof.
-  intros o e is. induction is as [|i r IH]; intros s Hd; cbn [loop]; [eauto|].
-  rewrite iteration_eq, Hd. apply IH; assumption.
+  intros o e is. induction is as [|i r IH]; intros s Hsic; cbn [loop]; [eauto|].
+  destruct (iteration_ok o e i s Hsic) as (s' & b & Hi). rewrite Hi. destruct b; eauto.
 Qed.
 
 Lemma prepare_ok : forall o e, valid o e ->
-  exists s first loaded early, prepare fixed o e = Ok (s, first, loaded, early) /\
-    (early = false -> mh_inv o first s).
+  exists s first loaded early, prepare fixed o e = Ok (s, first, loaded, early).
 Proof.
-  intros o e (Ht & Hres & Hins & Hsic & Hfr & Hd0 & Hdisk & Hinit). unfold prepare. cbn [fix_iglobal fixed negb andb].
-  destruct (outdir o) eqn:Ho.
-  - destruct (last0 e) as [l|] eqn:El.
-    + destruct (resume o) eqn:Er.
-      * destruct (Hdisk eq_refl eq_refl l eq_refl) as (H1 & H2 & H3 & H4).
-        rewrite H1, H2. cbn [andb].
-        destruct (has (files0 e) (FMean (fn o l))) eqn:Em.
-        -- destruct (S l =? total o); eexists _, _, _, _; (split; [reflexivity|]);
-             [discriminate|]. intros _ _ _. cbn. exact H3.
-        -- destruct H4 as [H4|H4]; [discriminate|]. rewrite H4.
-           change (1 =? 0) with false. change (negb (1 =? 1)) with false. cbv iota.
-           destruct (S l =? total o); eexists _, _, _, _; (split; [reflexivity|]);
-             [discriminate|]. intros _ _ _. cbn. exact H3.
-      * eexists _, _, _, _. split; [reflexivity|]. intros _ _ Hn. apply has_write. right.
-        apply Hinit; auto. discriminate.
-    + eexists _, _, _, _. split; [reflexivity|]. intros _ _ Hn. apply has_write. right.
-      apply Hinit; auto.
-  - eexists _, _, _, _. split; [reflexivity|]. intros _ Hn. congruence.
+  intros o e (Ht & Hres & Hins & Hsic & Hfr & Hd0 & Hdisk). unfold prepare. cbn [fix_iglobal fixed negb andb].
+  destruct (outdir o) eqn:Ho; [|eauto 10].
+  destruct (last0 e) as [l|] eqn:El; [|eauto 10].
+  destruct (resume o) eqn:Er; [|eauto 10].
+  destruct (Hdisk eq_refl eq_refl l eq_refl) as (H1 & H2 & H3 & H4).
+  rewrite H1, H2. cbn [andb].
+  destruct (has (files0 e) (FMean (fn o l))) eqn:Em.
+  - destruct (S l =? total o); eauto 10.
+  - destruct H4 as [H4|H4]; [discriminate|]. rewrite H4.
+    change (1 =? 0) with false. change (negb (1 =? 1)) with false. cbv iota.
+    destruct (S l =? total o); eauto 10.
 Qed.
 
 Lemma total_ok : forall o e, valid o e -> exists r, run fixed o e = Ok r.
 Proof.
-  intros o e Hv. pose proof Hv as (Ht & Hres & Hins & Hsic & Hfr & Hd0 & Hdisk & Hinit).
+  intros o e Hv. pose proof Hv as (Ht & Hres & Hins & Hsic & Hfr & Hd0 & Hdisk).
   rewrite run_eq.
   assert (H1 : negb (outdir o) && resume o = false).
   { destruct (resume o); [rewrite (Hres eq_refl); reflexivity|apply andb_false_r]. }
@@ -540,11 +503,9 @@ Proof.
   { destruct (sic o) eqn:E; [apply andb_false_iff; left; apply andb_false_r|].
     rewrite exists_lt_false; [apply andb_false_r|]. intros i. rewrite (Hsic eq_refl i). reflexivity. }
   rewrite H4.
-  destruct (prepare_ok o e Hv) as (s & first & loaded & early & Hp & Hinv). rewrite Hp.
+  destruct (prepare_ok o e Hv) as (s & first & loaded & early & Hp). rewrite Hp.
   destruct early; [eauto|]. rewrite Hfr. cbn [negb].
-  destruct (dry o) eqn:Hd.
-  - destruct (loop_dry_ok o e (seq first (total o - first)) s Hd) as (s' & Hl). rewrite Hl. eauto.
-  - destruct (loop_ok o e (total o - first) first s Hsic Hd (Hinv eq_refl)) as (s' & Hl). rewrite Hl. eauto.
+  destruct (loop_ok o e (seq first (total o - first)) s Hsic) as (s' & Hl). rewrite Hl. eauto.
 Qed.
 
 (* ---- file names follow the save strategy ---- *)
@@ -578,7 +539,7 @@ Lemma has_report_block : forall o e i s s1 g,
 Proof.
   intros o e i s s1 g. unfold report_block, glob_set. cbn [fix_global fixed].
   destruct (outdir o) eqn:Ho; [|intros H; injection H as <-; auto].
-  destruct (negb (i =? 0) && negb _); [discriminate|].
+  destruct (negb (i =? 0) && negb _ && negb _); [discriminate|].
   intros H; injection H as <-.
   assert (Hg : gfn o e i = fn o i) by (unfold gfn; rewrite Ho; reflexivity). rewrite Hg.
   intros H. apply has_gwrite_out in H; [|assumption]. destruct H as [->|H]; [left; unfold iter_file; auto 20|].
@@ -671,9 +632,9 @@ Proof.
 Qed.
 
 Lemma each_fix_needed :
-  (exists o e r, valid o e /\ run (mkVar false true true true) o e = Ok r /\ r_depth r <> depth0 e /\ r_state_loaded r = false) /\
-  (exists o e, valid o e /\ run (mkVar true false true true) o e = Err EUnbound) /\
-  (exists o e r, valid o e /\ outdir o = false /\ run (mkVar true true false true) o e = Ok r /\ r_foreign r <> []).
+  (exists o e r, valid o e /\ run (mkVar false true true true true) o e = Ok r /\ r_depth r <> depth0 e /\ r_state_loaded r = false) /\
+  (exists o e, valid o e /\ run (mkVar true false true true true) o e = Err EUnbound) /\
+  (exists o e r, valid o e /\ outdir o = false /\ run (mkVar true true false true true) o e = Ok r /\ r_foreign r <> []).
 Proof.
   split; [|split].
   - exists (mkOpts 3 (fun _ => 2) true false false false false false true true (fun _ => true) false
@@ -737,7 +698,7 @@ Proof.
   destruct (sl_save_block fixed o i (minimise o i (enter o i s))) as [_ S2]. rewrite S2.
   rewrite <- (save_block_mean o i (minimise o i (enter o i s)) Ho).
   revert Hr. unfold report_block, glob_set. cbn [fix_global fixed]. rewrite Ho.
-  destruct (negb (i =? 0) && negb _); [discriminate|].
+  destruct (negb (i =? 0) && negb _ && negb _); [discriminate|].
   intros H; injection H as <-.
   rewrite has_gwrite_other, has_write_other by discriminate.
   destruct (plot_m o); rewrite ?has_gwrite_other by discriminate; reflexivity.
@@ -750,4 +711,67 @@ Proof.
                  (fun _ => false) 2 (fun _ => false) true false 0), e_base.
   eexists. split; [apply valid_concrete; cbn; auto|].
   split; [vm_compute; reflexivity|]. cbn. auto.
+Qed.
+
+(* ---- which seed sequence an iteration pushes ---- *)
+Lemma src_of_le : forall f i, src_of f i <= i.
+Proof. induction i; cbn; [lia|]. destruct (f (S i)); lia. Qed.
+Lemma src_of_fresh : forall f i, f 0 = true -> f (src_of f i) = true.
+Proof. intros f i H0. induction i; cbn; [assumption|]. destruct (f (S i)) eqn:E; assumption. Qed.
+Lemma src_of_id : forall f i, f i = true -> src_of f i = i.
+Proof. intros f [|i] H; cbn; [reflexivity|]. rewrite H. reflexivity. Qed.
+Lemma src_of_stale : forall f i, f (S i) = false -> src_of f (S i) = src_of f i.
+Proof. intros f i H; cbn. rewrite H. reflexivity. Qed.
+
+Lemma acts_write_samples : forall f n s, acts (write_samples f n s) = acts s.
+Proof. induction n; intros; cbn; auto. Qed.
+Lemma acts_save_sl : forall v f s, acts (save_sl v f s) = acts s.
+Proof.
+  intros; unfold save_sl. destruct (sl_res s), (fix_mean v); cbn; rewrite acts_write_samples; reflexivity.
+Qed.
+Lemma acts_save_block : forall v o i s, acts (save_block v o i s) = acts s.
+Proof.
+  intros; unfold save_block. destruct (outdir o); [|reflexivity].
+  destruct (plot_e o); [destruct (0 <? i)|]; cbn [acts write]; rewrite ?acts_save_sl;
+    destruct (export o), (save_all o); reflexivity.
+Qed.
+Lemma acts_gwrite : forall o f s, acts (gwrite o f s) = acts s.
+Proof. intros; unfold gwrite; destruct (outdir o); reflexivity. Qed.
+Lemma acts_report_block : forall v o e i s s1, report_block v o e i s = Ok s1 -> acts s1 = acts s.
+Proof.
+  intros v o e i s s1. unfold report_block.
+  destruct (glob_set v o e); [|intros H; injection H as <-; reflexivity].
+  destruct (negb (i =? 0) && negb _ && negb _); [discriminate|].
+  intros H; injection H as <-. rewrite acts_gwrite.
+  destruct (outdir o), (plot_m o); cbn [acts write]; rewrite ?acts_gwrite; reflexivity.
+Qed.
+
+Lemma iteration_pushes_src : forall v o e i s s' b,
+  iteration v o e i s = Ok (s', b) -> In (APush i (src_of (fresh o) i)) (acts s').
+Proof.
+  intros v o e i s s' b. rewrite iteration_eq.
+  assert (He : In (APush i (src_of (fresh o) i)) (acts (enter o i s))).
+  { unfold enter. destruct (trans o i); cbn; auto. }
+  destruct (dry o).
+  - intros H; injection H as <- _. destruct (fix_pop v); cbn; auto.
+  - destruct (negb (sic o) && _); [discriminate|].
+    destruct (report_block _ _ _ _ _) as [s1|] eqn:Hr; [|discriminate].
+    intros H. rewrite (surjective_pairing (callbacks v o i s1)) in H. injection H as <- _.
+    apply acts_report_block in Hr. rewrite acts_save_block in Hr.
+    assert (Hm : In (APush i (src_of (fresh o) i)) (acts s1)).
+    { rewrite Hr. unfold minimise. destruct (nsamp o i =? 0); cbn; auto. }
+    unfold callbacks.
+    destruct (inspect_args o =? 0), (term_given o), (term o i), (fix_pop v); cbn; auto 10.
+Qed.
+
+Lemma orig_fresh_dir :
+  exists o e, valid o e /\ init_index o = 1 /\ outdir o = true /\
+              run (mkVar true true true true false) o e = Err ENotFound /\
+              exists r, run fixed o e = Ok r.
+Proof.
+  exists (mkOpts 3 (fun _ => 2) true true false false false false true false (fun _ => true) false
+                 (fun _ => false) 2 (fun _ => false) true false 1), e_base.
+  split; [unfold valid; cbn; repeat split; auto; try lia; discriminate|].
+  split; [reflexivity|]. split; [reflexivity|]. split; [vm_compute; reflexivity|].
+  eexists. vm_compute. reflexivity.
 Qed.
